@@ -114,9 +114,14 @@ CHECKS["C04"] = {
         {"probe": "core", "harness": "Harness_C04_faults", "setup": "Setup_C04_faults", "reach": ["c04.compared", "c04.panic"], "workers": 10, "sched": "first",
          "configs_quick": ["single", "wl1"], "configs_thorough": ["single", "follow", "funcsyn", "wl1", "wl2", "follow_wl2"],
          "quick": {"params": {"budget": 1}, "sample_models": 40, "sample_every": 5}, "thorough": {"params": {"budget": 2}, "sample_models": 200, "sample_every": 31},
-         "what": "fault injection {error, panic} at every resolver / directive position of 8 operation families (single faults quick, pairs thorough) on the generated executor; worker_limit 0/1/2"},
+         "what": "fault injection {error, panic} at every resolver / directive / argument-directive position of 8 operation families (single faults quick, pairs thorough) on the generated executor; worker_limit 0/1/2"},
     ],
 }
+
+CHECKS["C04"]["harnesses"].append(
+    {"probe": "core", "harness": "Harness_C04_argPanic", "setup": "Setup_C04_faults", "reach": ["c04.argpanic"], "workers": 6, "sched": "first",
+     "configs_quick": ["single", "follow"], "configs_thorough": ["single", "follow", "funcsyn", "omitptr"], "quick": {"params": {"budget": 1}},
+     "what": "a panic while building a field's arguments (custom scalar UnmarshalGQL, argument directive): field null, one error, resolver not called, recover hook once"})
 
 CHECKS["C06"] = {
     "prepare": probes.prepare,
